@@ -245,7 +245,7 @@ fn arb_fragment() -> impl Strategy<Value = Vec<PC>> {
     ]
 }
 
-fn arb_case() -> impl Strategy<Value = PatCase> {
+pub fn arb_case() -> impl Strategy<Value = PatCase> {
     (prop::collection::vec(arb_fragment(), 1..5), prop::collection::vec(arb_char(), 0..6), 0usize..6, any::<u16>(), any::<bool>())
         .prop_map(|(frags, mut text, mode, seed, derive_text)| {
             let pat: Vec<PC> = frags.into_iter().flatten().collect();
